@@ -24,6 +24,9 @@
 //! * `C13.hang`              HANG (watchdog or self-deadlock on the global lock)
 //! * `C14.lost_wakeup`       an agent is blocked although its key's mutex is free
 //! * `C03.stream_stall`      a stream returned `Pending` although a key of its snapshot is unlocked and valued
+//! * `C07.bound`             the critical section in which a soft-limited call looks its key up (gets its handle /
+//!                           inserts the placeholder) leaves more than max(N, entries that were locked or
+//!                           valueless before + 1) entries
 //! * `C05.spurious_try_fail` the `try_lock` of a try variant failed although the key's mutex was free (neither
 //!                           held nor handed to a waiter) in the state the try ran in
 
@@ -276,6 +279,32 @@ impl Monitors {
                                     format!(
                                         "{}: the try_lock of key {} failed although its mutex was free (nobody held it, nobody had been handed it; {} handles)",
                                         label.text(), key, e.replicas
+                                    ),
+                                );
+                            }
+                        }
+                    }
+                }
+                // C07: the bound, judged at the segment in which the call's look-up happened (its key appeared in
+                // the map or gained a replica): that critical section must have seen room or nothing evictable
+                if let Some(Call::Lock { key, lim, .. }) = self.agents.get(a).and_then(|x| x.call) {
+                    if lim > 0 && self.prev_snap_exact && !seg.mid_cs && !seg.snap.gone && !seg.snap.glock_held && !obs.is_failure() {
+                        let before = seg.pre.get(key).map(|e| e.replicas);
+                        let after = seg.snap.get(key).map(|e| e.replicas);
+                        let looked_up = match (before, after) {
+                            (None, Some(_)) => true,
+                            (Some(b), Some(x)) => x > b,
+                            _ => false,
+                        };
+                        if looked_up && !matches!(obs, Obs::Offered(_)) {
+                            let nonev = seg.pre.entries.iter().filter(|e| e.locked || e.has_value == Some(false)).count();
+                            let n = seg.snap.entries.len();
+                            if n > std::cmp::max(lim as usize, nonev + 1) {
+                                self.hit(
+                                    "C07.bound",
+                                    format!(
+                                        "{}: the look-up of a call with limit {} left {} entries although only {} were locked or valueless before",
+                                        label.text(), lim, n, nonev
                                     ),
                                 );
                             }
